@@ -349,3 +349,93 @@ Theorem stft_padded_signal_covers_frames :
     np_stft_plan Lf S causal k N = Some (nf, pl, pr) -> (nf - 1) * S + Lf <= pl + N + pr.
 Proof. exact stft_padded_covers_frames_l. Qed.
 Print Assumptions stft_padded_signal_covers_frames.
+
+(** the entry points, end to end *)
+Theorem kaldi_main_spec :
+  forall (L : Lib) (Cfg : Type) (fs : string -> option string) (load : string -> option Cfg)
+         (shape : Cfg -> CfgShape Cfg) (bc : Cfg -> Build (Comp L)) (bp : Cfg -> Build (Pre L))
+         (bq : Cfg -> Build (Post L)) (a : KArgs) (cc : Cfg) (pc qc : option Cfg) (c : Comp L)
+         (pl : list Cfg) (ps : list (Pre L)) (ql : list Cfg) (qs : list (Post L))
+         (items : list (KItem L)) (r0 : Rng L),
+    config_type Cfg fs load (ka_computer a) = Some cc ->
+    opt_config Cfg fs load (ka_preprocess a) = Some pc ->
+    opt_config Cfg fs load (ka_postprocess a) = Some qc ->
+    bc cc = Built c ->
+    config_elements Cfg shape pc = Some pl -> build_all bp pl = Built ps ->
+    config_elements Cfg shape qc = Some ql -> build_all bq ql = Built qs ->
+    kaldi_main Cfg fs load shape bc bp bq false a (Some items) true r0 =
+    match kaldi_spec (ka_opts a) ps c qs items
+                     (match k_seed (ka_opts a) with Some z => seed_rng z | None => r0 end) with
+    | (out, _, None) => KExit (if Zlength out =? 0 then 1 else 0) out
+    | (out, _, Some e) => KExc e out
+    end.
+Proof. exact @kaldi_main_spec_l. Qed.
+Print Assumptions kaldi_main_spec.
+
+Theorem kaldi_main_unparsable_config_exits_2 :
+  forall (L : Lib) (Cfg : Type) (fs : string -> option string) (load : string -> option Cfg)
+         (shape : Cfg -> CfgShape Cfg) (bc : Cfg -> Build (Comp L)) (bp : Cfg -> Build (Pre L))
+         (bq : Cfg -> Build (Post L)) (a : KArgs) (wav : option (list (KItem L))) (writable : bool)
+         (r0 : Rng L) (d : bool),
+    config_type Cfg fs load (ka_computer a) = None ->
+    kaldi_main Cfg fs load shape bc bp bq d a wav writable r0 = KExit 2 [].
+Proof. exact @kaldi_main_unparsable_l. Qed.
+Print Assumptions kaldi_main_unparsable_config_exits_2.
+
+Theorem kaldi_main_unknown_computer_exits_1 :
+  forall (L : Lib) (Cfg : Type) (fs : string -> option string) (load : string -> option Cfg)
+         (shape : Cfg -> CfgShape Cfg) (bc : Cfg -> Build (Comp L)) (bp : Cfg -> Build (Pre L))
+         (bq : Cfg -> Build (Post L)) (a : KArgs) (cc : Cfg) (pc qc : option Cfg)
+         (wav : option (list (KItem L))) (writable : bool) (r0 : Rng L) (d : bool),
+    config_type Cfg fs load (ka_computer a) = Some cc ->
+    opt_config Cfg fs load (ka_preprocess a) = Some pc ->
+    opt_config Cfg fs load (ka_postprocess a) = Some qc ->
+    bc cc = BuildValueError ->
+    kaldi_main Cfg fs load shape bc bp bq d a wav writable r0 = KExit 1 [].
+Proof. exact @kaldi_main_bad_computer_l. Qed.
+Print Assumptions kaldi_main_unknown_computer_exits_1.
+
+(** the ids read from a map file are pairwise distinct *)
+Theorem map_file_ids_distinct :
+  forall (lines : list string) (n : Z) (acc m : list (string * string)),
+    torch_map_loop lines n acc = MapOk m -> NoDup (map fst acc) -> NoDup (map fst m).
+Proof. exact torch_map_loop_nodup. Qed.
+Print Assumptions map_file_ids_distinct.
+
+Theorem torch_main_spec :
+  forall (L : Lib) (Cfg : Type) (fs : string -> option string) (load : string -> option Cfg)
+         (shape : Cfg -> CfgShape Cfg) (bc : Cfg -> Build (Comp L)) (bp : Cfg -> Build (Pre L))
+         (bq : Cfg -> Build (Post L)) (read_signal : string -> string -> option (Arr (Sig L)))
+         (sig_len : Sig L -> Z),
+    (forall s : Sig L, 0 <= sig_len s) ->
+    forall (a : TArgs) (fresh : Z) (r : Rng L) (cc pc qc : option Cfg) (comp : option (PtComp L))
+           (pl : list Cfg) (pres : list (Pre L)) (ptpres : list (PtPre L)) (ql : list Cfg)
+           (posts : list (Post L)) (m : list (string * string)) (F : list (string * Feat L)),
+      (match ta_computer a with
+       | None => Some None
+       | Some s => match config_type Cfg fs load s with Some c => Some (Some c) | None => None end
+       end) = Some cc ->
+      opt_config Cfg fs load (ta_preprocess a) = Some pc ->
+      opt_config Cfg fs load (ta_postprocess a) = Some qc ->
+      torch_map_loop (ta_map a) 0 [] = MapOk m ->
+      (match cc with
+       | None => Some (Some None)
+       | Some c => match bc c with
+                   | Built computer => match conv_comp computer with
+                                       | Some pc => Some (Some (Some pc))
+                                       | None => Some None
+                                       end
+                   | _ => None
+                   end
+       end) = Some (Some comp) ->
+      config_elements Cfg shape pc = Some pl -> build_all bp pl = Built pres ->
+      conv_all conv_pre pres = Some ptpres ->
+      config_elements Cfg shape qc = Some ql -> build_all bq ql = Built posts ->
+      let seed := torch_seed_choice (ta_seed a) fresh in
+      let ds := torch_dataset a seed m ptpres comp (map conv_post posts) in
+      Forall2 (torch_stored read_signal a seed m ptpres comp (map conv_post posts)) (td_utt_path ds) F ->
+      torch_main Cfg fs load shape bc bp bq read_signal sig_len a fresh r =
+      TExit 0 (map (file_of (ta_prefix a) (ta_suffix a)) F)
+            (if is_some (ta_manifest a) then map fst F else []).
+Proof. exact @torch_main_spec_l. Qed.
+Print Assumptions torch_main_spec.
